@@ -258,7 +258,7 @@ def verify_unit(job):
     base["bindings"] = sorted(ex.bindings.keys())
     base["paths"] = ex.n_outcomes
     base["normal_paths"] = ex.n_normal
-    tmo = opts.get("timeout_ms", 10000)
+    tmo = int(opts.get("timeout_ms", 10000) * getattr(spec, "timeout_factor", 1))  # units with heavy quantified invariants ask for a longer budget
     for ob in ex.obligations:
         try:
             r = discharge(ob, inputs, tmo, opts.get("cvc5", True), opts.get("both", False))
